@@ -13,7 +13,9 @@ go build ./... 2>&1 | tail -3; [ ${PIPESTATUS[0]} -eq 0 ] && res build OK || res
 PKGS=$(git diff --name-only | xargs -n1 dirname | sort -u | sed 's#^#./#')
 IMPORTERS=""
 for p in $PKGS; do ip=github.com/obolnetwork/charon/${p#./}; IMPORTERS="$IMPORTERS $(go list -f '{{.ImportPath}} {{join .Imports " "}} {{join .TestImports " "}} {{join .XTestImports " "}}' ./... 2>/dev/null | grep " $ip\( \|$\)" | cut -d' ' -f1 | sed 's#github.com/obolnetwork/charon#.#')"; done
-ALL=$(echo $PKGS $IMPORTERS "$@" | tr ' ' '\n' | sort -u | grep -v '^./dkg$' | tr '\n' ' ')
+# ./dkg takes 5-6 minutes: only when the change touches it
+if echo "$PKGS" | grep -q '^./dkg'; then EXCL='^$'; else EXCL='^./dkg$'; fi
+ALL=$(echo $PKGS $IMPORTERS "$@" | tr ' ' '\n' | sort -u | grep -v "$EXCL" | tr '\n' ' ')
 echo "existing tests: $ALL"
 go test -count=1 -timeout 20m -json $ALL > /tmp/confirm_tests.json 2>&1
 python3 - <<'PY'
